@@ -64,6 +64,8 @@ type transSpec struct {
 	until   string // when non-empty: translate only up to (excluding) the first top-level statement whose source starts with this text …
 	yield   string // … and return this local (with a nil error) there; the first result of the earlier returns becomes its zero value
 	yieldTy string // Lean type of that local
+	state   string // a local pointer variable of the translated range that is modified through: it becomes the function's state (like a modified receiver) and its result
+	as      string // name of the generated definition (default: the Go function's name)
 }
 
 type trans struct {
@@ -997,6 +999,9 @@ func (t *trans) function(name string) {
 		return
 	}
 	ctx := &funcCtx{name: name, mutable: mutatedVars(fd.Body), mutRecv: sp.mutRecv}
+	if sp.state != "" {
+		ctx.mutRecv = true
+	}
 	t.cur = ctx
 	var params []string
 	params = append(params, "(env : Env)")
@@ -1006,16 +1011,25 @@ func (t *trans) function(name string) {
 		if st, ok := rt.(*ast.StarExpr); ok {
 			rt = st.X
 		}
-		if len(r.Names) == 1 {
+		if len(r.Names) == 1 && sp.state == "" {
 			ctx.recv = r.Names[0].Name
 			params = append(params, "("+ctx.recv+" : "+t.leanType(rt)+")")
+		} else if len(r.Names) == 1 {
+			// the method's own receiver is an ordinary (non-nil) parameter here
+			params = append(params, "("+leanIdent(r.Names[0].Name)+" : "+t.leanType(rt)+")")
 		}
+	}
+	if sp.state != "" {
+		ctx.recv = sp.state
 	}
 	body := fd.Body.List
 	bound := map[string]bool{}
+	paramFails := map[string][2]int{} // failures recorded while typing a parameter (dropped again if the parameter is)
 	for _, f := range fd.Type.Params.List {
 		for _, n := range f.Names {
+			f0 := len(t.fails)
 			params = append(params, "("+leanIdent(n.Name)+" : "+t.leanType(f.Type)+")")
+			paramFails[leanIdent(n.Name)] = [2]int{f0, len(t.fails)}
 			bound[n.Name] = true
 		}
 	}
@@ -1056,7 +1070,7 @@ func (t *trans) function(name string) {
 			})
 		}
 		for _, n := range orderNames {
-			if !used[n] {
+			if !used[n] || n == sp.state {
 				continue
 			}
 			obj := t.info.Defs[defined[n].(*ast.Ident)]
@@ -1067,8 +1081,41 @@ func (t *trans) function(name string) {
 		}
 		body = body[start:]
 	}
+	stateType := ""
+	if sp.state != "" {
+		// the state variable: a local pointer to a struct, defined before the translated range
+		ast.Inspect(fd.Body, func(n ast.Node) bool {
+			if id, ok := n.(*ast.Ident); ok && id.Name == sp.state && stateType == "" {
+				if obj := t.info.Defs[id]; obj != nil {
+					if n, _ := namedOf(obj.Type()); n != "" {
+						stateType = n
+					}
+				}
+			}
+			return true
+		})
+		if stateType == "" {
+			t.failf("%s: state variable %s not found", name, sp.state)
+			return
+		}
+		params = append(params, "("+sp.state+" : "+t.leanType(ast.NewIdent(stateType))+")")
+	}
 	res := ""
-	if sp.until != "" {
+	if sp.until != "" && sp.yield == "" {
+		end := -1
+		for i, s := range body {
+			if strings.HasPrefix(t.src(s), sp.until) {
+				end = i
+				break
+			}
+		}
+		if end < 0 {
+			t.failf("%s: statement %q (end of the translated part) not found", name, sp.until)
+			return
+		}
+		body = body[:end]
+		res = "Unit"
+	} else if sp.until != "" {
 		end := -1
 		for i, s := range body {
 			if strings.HasPrefix(t.src(s), sp.until) {
@@ -1092,9 +1139,11 @@ func (t *trans) function(name string) {
 			rt = st.X
 		}
 		res = "(" + t.leanType(rt) + " × " + res + ")"
+	} else if sp.state != "" {
+		res = "(" + t.leanType(ast.NewIdent(stateType)) + " × " + res + ")"
 	}
 	var o out
-	if sp.mutRecv {
+	if sp.mutRecv || sp.state != "" {
 		o.line(1, "let mut "+ctx.recv+" := "+ctx.recv)
 	}
 	var paramNames []string
@@ -1112,12 +1161,46 @@ func (t *trans) function(name string) {
 	}
 	o.b.WriteString(bo.b.String())
 	// a body whose last statement is not a return (void functions) needs a final value
-	if sp.until != "" {
+	if sp.until != "" && sp.yield == "" {
+		o.line(1, "return "+t.retExpr(nil))
+	} else if sp.until != "" {
 		o.line(1, "return ("+leanIdent(sp.yield)+", none)")
 	} else if n := len(body); n == 0 || !endsInReturn(body[n-1]) {
 		o.line(1, "return "+t.retExpr(nil))
 	}
 	pos := t.p.fset.Position(fd.Pos())
+	if sp.anchor != "" || sp.until != "" {
+		// of a translated range only the parameters it mentions are kept
+		usedIn := map[string]bool{}
+		for _, st := range body {
+			ast.Inspect(st, func(n ast.Node) bool {
+				if id, ok := n.(*ast.Ident); ok {
+					usedIn[id.Name] = true
+				}
+				return true
+			})
+		}
+		var kept []string
+		drop := map[int]bool{}
+		for _, p := range params {
+			n := strings.TrimPrefix(strings.SplitN(p, " ", 2)[0], "(")
+			if n == "env" || n == ctx.recv || usedIn[strings.TrimSuffix(n, "'")] {
+				kept = append(kept, p)
+			} else if r, ok := paramFails[n]; ok {
+				for i := r[0]; i < r[1]; i++ {
+					drop[i] = true
+				}
+			}
+		}
+		params = kept
+		var fs []string
+		for i, f := range t.fails {
+			if !drop[i] {
+				fs = append(fs, f)
+			}
+		}
+		t.fails = fs
+	}
 	hdr := fmt.Sprintf("/-- %s:%s `%s` -/\ndef %s %s : Outcome %s := do\n", shortFile(pos.Filename), "", name, name, strings.Join(params, " "), res)
 	t.bodies[name] = hdr + o.b.String()
 	t.order = append(t.order, name)
@@ -1251,20 +1334,28 @@ func translate(repo string, p *pkgFiles, outPath string) {
 		{fn: "parseArtifactResponse", recv: "ServiceProvider"},
 		{fn: "getSPEncryptionCert", recv: "IdpAuthnRequest", until: "certStr = regexp.", yield: "certStr", yieldTy: "String"},
 		{fn: "getACSEndpoint", recv: "IdpAuthnRequest", mutRecv: true},
+		{fn: "ServeIDPInitiated", recv: "IdentityProvider", as: "idpInitiatedSelect", state: "req",
+			anchor: "for _, spssoDescriptor := range req.ServiceProviderMetadata.SPSSODescriptors", until: "if req.ACSEndpoint == nil"},
 		{fn: "Validate", recv: "IdpAuthnRequest", mutRecv: true, anchor: "mustHaveDestination :="},
 	}
+	key := func(s transSpec) string {
+		if s.as != "" {
+			return s.as
+		}
+		return s.fn
+	}
 	for _, s := range specs {
-		t.specs[s.fn] = s
+		t.specs[key(s)] = s
 		if s.recv != "" {
 			if fd, ok := t.funcs[s.recv+"."+s.fn]; ok {
-				t.funcs[s.fn] = fd
+				t.funcs[key(s)] = fd
 			} else {
-				delete(t.funcs, s.fn)
+				delete(t.funcs, key(s))
 			}
 		}
 	}
 	for _, s := range specs {
-		t.need(s.fn)
+		t.need(key(s))
 	}
 
 	var b strings.Builder
